@@ -185,19 +185,18 @@ Proof.
   intros H. unfold writer_text, writer_chunks. rewrite H. cbn [negb]. split; reflexivity.
 Qed.
 
-(* a successful run: the chunks tile the whole token list *)
+(* a successful run: the chunks tile the token list up to the final cursor *)
 Lemma writer_chunks_tiling root cs p :
-  writer_chunks ts root = Ok (cs, p) -> p = zlen ts /\ tiling 0 cs (zlen ts).
+  writer_chunks ts root = Ok (cs, p) -> tiling 0 cs p.
 Proof.
   unfold writer_chunks. destruct root as [tag s e sh fs| | | | | | | |]; try discriminate.
   destruct (negb _); [discriminate|].
   destruct ((walk ts _ _ >> spaces_to ts (ntok ts)) (mkW 0 0 [])) as [st|err] eqn:E; [|discriminate].
-  destruct (w_pos st =? ntok ts) eqn:Ep; [|discriminate]. intros [= <- <-].
-  apply Z.eqb_eq in Ep. unfold ntok in Ep. split; [exact Ep|].
+  intros [= <- <-].
   assert (Hx : ext (walk ts (2 * tdepth (Node tag s e sh fs) + 2) (Node tag s e sh fs) >> spaces_to ts (ntok ts)))
     by (apply ext_seq; [apply ext_walk | apply ext_spaces_to]).
   destruct (Hx (mkW 0 0 []) st (Z.le_refl 0) E) as (cs & Ho & Ht). cbn [w_pos w_out] in *.
-  rewrite app_nil_r in Ho. rewrite Ho. unfold rev'. rewrite <- rev_alt, rev_involutive. rewrite <- Ep. exact Ht.
+  rewrite app_nil_r in Ho. rewrite Ho. unfold rev'. rewrite <- rev_alt, rev_involutive. exact Ht.
 Qed.
 
 End T.
